@@ -32,9 +32,15 @@ for d in sorted(glob.glob('/verif/seeded/C*-*')):
             meta["confirmed_by_me"]["note"] = ("the failing tests of this filter also fail on the unmodified tree in this sandbox (they need the network: remote manifest / "
                                                "time-stamp authority lookups, or read fixtures that are empty in this checkout); I compared the failing test names with the "
                                                "unmodified-tree baseline (breaker's tests_with.txt and my own earlier runs) — the change adds no failing test")
+        if name.startswith(("C04-", "C25-", "C26-")):
+            meta["confirmed_by_me"]["how"] = "tools/confirm_mutant.sh with CONFIRM_WT=<scratch worktree /tmp/brk-C04 resp. /tmp/brk-C26>, CONFIRM_FEATURES=file_io: demo copied to sdk/tests/, cargo test --test demo_verif without and with patch.diff, then cargo test --lib -- <touched modules> with the patch"
+        if name.startswith("C34-"):
+            meta["confirmed_by_me"]["how"] = "tools/confirm_unit.sh in the scratch worktree /tmp/brk-C34: the demonstration is a unit test over crate-private functions, pasted at the end of the tests module of sdk/src/jumbf/labels.rs; cargo test --lib -- jumbf::labels::tests::demo_c34 without and with patch.diff, then cargo test --lib -- jumbf::labels:: claim:: with the patch"
         if name.startswith(("C31-", "C32-")):
             meta["confirmed_by_me"]["how"] = "target/confirm6.sh in a scratch worktree (/tmp/cf): demo copied to c2pa_c_ffi/tests resp. cli/tests, cargo test -p <crate> --test demo_verif without and with patch.diff, then the crate's own tests with the patch"
     meta["checks_run_against_it"] = lanes.get(name, [])
+    if name.startswith(("C04-", "C25-", "C26-", "C34-")):
+        meta["checks_run_how"] = "tools/try_mutant.sh: patch applied to /repo itself, ./check <ID> quick (VERIF_SEED=1, scratch verif root /verif/work/try-root), then git -C /repo checkout -- ."
     meta["applies_with"] = "git -C /repo apply /verif/seeded/%s/patch.diff  (undo: git -C /repo checkout -- .)" % name
     json.dump(meta, open(mp, 'w'), indent=1)
 print("updated", len(glob.glob('/verif/seeded/C*-*')))
